@@ -137,6 +137,7 @@ def run(run, ix, tier):
     check_nint_distance(run, ix)
     check_nint_distance_specials(run, ix, lookup)
     check_mpq_denominators(run, ix)
+    check_exact_rational_branches(run, ix)
 
 
 def where(ix, name):
@@ -715,3 +716,41 @@ def check_mpq_denominators(run, ix):
     for st in cls.node.body:
         if isinstance(st, ast.FunctionDef):
             walk(st.body, set(), st)
+
+
+def check_exact_rational_branches(run, ix):
+    """N-R9.  "For all numeric types": a Fraction is an exact number, and ctx.convert ROUNDS it to the working
+    precision -- isint(Fraction(2**60+1, 2)) was True at 53 bits, nint_distance gave (2**59, -inf) for 2**59 + 1/2.
+    The predicates that classify by exact value (isint, isnpint, nint_distance) must therefore test for
+    numbers.Rational before they fall back to ctx.convert, and decide from numerator / denominator (or hand an mpq
+    of them to the exact branch)."""
+    run.rule('N-R9', floor=3, desc='exact-valued predicates decide a Fraction from numerator and denominator, not from its rounding')
+    for rel, qn in (('mpmath/ctx_mp_python.py', 'PythonMPContext.isint'), ('mpmath/ctx_mp.py', 'MPContext.isnpint'),
+                    ('mpmath/ctx_mp.py', 'MPContext.nint_distance')):
+        f = ix.func(rel, qn)
+        x = f.params[1]
+        conv = [c for c in _walk_own(f.node) if isinstance(c, ast.Call) and norm(c.func).endswith('.convert') and
+                c.args and norm(c.args[0]) == x]
+        if not conv:
+            raise AnalysisError('%s: fallback conversion not found' % qn)
+        first = min(c.lineno for c in conv)
+        tests = [t for t in _walk_own(f.node) if isinstance(t, ast.If) and t.lineno < first and
+                 norm(t.test).replace(' ', '') == 'isinstance(%s,numbers.Rational)' % x]
+        good = False
+        for t in tests:
+            body = ' '.join(norm(b, 200) for b in t.body)
+            if '%s.denominator' % x in body and any(isinstance(b, ast.Return) for b in t.body):
+                good = True
+        if good:
+            run.ok('N-R9', '%s decides a Rational from its numerator / denominator before the rounding fallback' % qn)
+        else:
+            run.fail(Finding('N-R9', rel, qn, norm(enclosing(conv[0])),
+                             'a Fraction reaches `ctx.convert`, which rounds it to the working precision, before its '
+                             'value is classified: isint(Fraction(2**60+1, 2)) is True at 53 bits, where mpq(2**60+1, 2) '
+                             'gives False', line=first))
+
+
+def enclosing(node):
+    while not isinstance(node, ast.stmt):
+        node = node._parent
+    return node
